@@ -82,4 +82,281 @@ theorem metaBytes_length_le (m : List (Bytes × Bytes)) (h : ∀ kv ∈ m, kv.1.
       omega
   omega
 
+/-! ### bucket header (16 bytes: nonce u32, count u32, hashLen u8, pad u8, file offset u48) -/
+
+theorem bucketHeader_length (b : BucketA) (off : Nat) : (bucketHeader b off).length = 16 := by
+  simp [bucketHeader, le_length]
+
+theorem pow4 : (256:Nat)^4 = 2^32 := by decide
+theorem pow6 : (256:Nat)^6 = 2^48 := by decide
+theorem pow3 : (256:Nat)^3 = 2^24 := by decide
+theorem pow8 : (256:Nat)^8 = 2^64 := by decide
+
+theorem bucketHeader_nonce (b : BucketA) (off : Nat) (h : b.nonce < 2^32) :
+    unle (slice (bucketHeader b off) 0 4) = b.nonce := by
+  have e : slice (bucketHeader b off) 0 4 = le 4 b.nonce := by
+    unfold bucketHeader
+    rw [List.append_assoc, List.append_assoc]
+    have := slice_zero_append (le 4 b.nonce) (le 4 b.entries.size ++ ([UInt8.ofNat Generated.hashSize, 0] ++ le 6 off))
+    rwa [le_length] at this
+  rw [e]; exact unle_le_of_lt 4 _ (by rw [pow4]; exact h)
+
+theorem bucketHeader_count (b : BucketA) (off : Nat) (h : b.entries.size < 2^32) :
+    unle (slice (bucketHeader b off) 4 4) = b.entries.size := by
+  have e : slice (bucketHeader b off) 4 4 = le 4 b.entries.size := by
+    unfold bucketHeader
+    rw [List.append_assoc, List.append_assoc]
+    have h1 := slice_append_right (le 4 b.nonce) (le 4 b.entries.size ++ ([UInt8.ofNat Generated.hashSize, 0] ++ le 6 off)) 0 4
+    rw [le_length] at h1
+    rw [h1]
+    have := slice_zero_append (le 4 b.entries.size) ([UInt8.ofNat Generated.hashSize, 0] ++ le 6 off)
+    rwa [le_length] at this
+  rw [e]; exact unle_le_of_lt 4 _ (by rw [pow4]; exact h)
+
+theorem bucketHeader_hashLen (b : BucketA) (off : Nat) : ((bucketHeader b off).getD 8 0).toNat = 3 := by
+  obtain ⟨n0, n1, n2, n3, e1⟩ : ∃ n0 n1 n2 n3, le 4 b.nonce = [n0, n1, n2, n3] := ⟨_, _, _, _, rfl⟩
+  obtain ⟨c0, c1, c2, c3, e2⟩ : ∃ c0 c1 c2 c3, le 4 b.entries.size = [c0, c1, c2, c3] := ⟨_, _, _, _, rfl⟩
+  unfold bucketHeader
+  rw [e1, e2]
+  rfl
+
+theorem bucketHeader_off (b : BucketA) (off : Nat) (h : off < 2^48) :
+    unle (slice (bucketHeader b off) 10 6) = off := by
+  have e : slice (bucketHeader b off) 10 6 = le 6 off := by
+    unfold bucketHeader
+    have h1 := slice_append_right (le 4 b.nonce ++ le 4 b.entries.size ++ [UInt8.ofNat Generated.hashSize, 0]) (le 6 off) 0 6
+    simp only [List.length_append, le_length, List.length_cons, List.length_nil] at h1
+    rw [h1]
+    exact slice_all _ _ (le_length _ _).symm
+  rw [e]; exact unle_le_of_lt 6 _ (by rw [pow6]; exact h)
+
+/-! ### bucket table and bodies: where bucket `i` sits -/
+
+/-- total body size of the first `i` buckets -/
+def bodyOff (vs : Nat) : List BucketA → Nat → Nat
+  | [], _ => 0
+  | _ :: _, 0 => 0
+  | b :: r, i+1 => b.entries.size * (Generated.hashSize + vs) + bodyOff vs r i
+
+theorem tableFrom_length (vs : Nat) (bs : List BucketA) (off : Nat) : (tableFrom vs bs off).length = 16 * bs.length := by
+  induction bs generalizing off with
+  | nil => rfl
+  | cons b r ih => simp only [tableFrom, List.length_append, bucketHeader_length, ih, List.length_cons]; omega
+
+/-- the `i`-th 16-byte record of the table is the header of bucket `i`, pointing at the sum of the bodies before it -/
+theorem tableFrom_slice (vs : Nat) (bs : List BucketA) (off i : Nat) (hi : i < bs.length) :
+    slice (tableFrom vs bs off) (16 * i) 16 = bucketHeader bs[i] (off + bodyOff vs bs i) := by
+  induction bs generalizing off i with
+  | nil => simp at hi
+  | cons b r ih =>
+    cases i with
+    | zero =>
+      simp only [tableFrom, bodyOff, Nat.mul_zero, Nat.add_zero, List.getElem_cons_zero]
+      have := slice_zero_append (bucketHeader b off) (tableFrom vs r (off + b.entries.size * (Generated.hashSize + vs)))
+      rwa [bucketHeader_length] at this
+    | succ j =>
+      have hj : j < r.length := by simpa using hi
+      simp only [tableFrom, bodyOff, List.getElem_cons_succ]
+      have e : 16 * (j + 1) = (bucketHeader b off).length + 16 * j := by rw [bucketHeader_length]; omega
+      rw [e, slice_append_right, ih _ j hj, Nat.add_assoc]
+
+theorem entryBytes_length (vs : Nat) (e : Ent) : (entryBytes vs e).length = Generated.hashSize + vs := by
+  simp only [entryBytes, List.length_append, le_length, List.length_take, List.length_replicate]
+  omega
+
+theorem bucketBody_length (vs : Nat) (b : BucketA) : (bucketBody vs b).length = b.entries.size * (Generated.hashSize + vs) := by
+  unfold bucketBody
+  have : ∀ l : List Ent, (l.flatMap (entryBytes vs)).length = l.length * (Generated.hashSize + vs) := by
+    intro l
+    induction l with
+    | nil => simp
+    | cons x r ih => simp only [List.flatMap_cons, List.length_append, entryBytes_length, ih, List.length_cons, Nat.succ_mul]; omega
+  rw [this]; simp
+
+theorem bodies_cons (vs : Nat) (b : BucketA) (r : List BucketA) :
+    (b :: r).flatMap (bucketBody vs) = bucketBody vs b ++ r.flatMap (bucketBody vs) := by
+  simp [List.flatMap_cons]
+
+/-- the body of bucket `i` inside the concatenated bodies -/
+theorem bodies_slice (vs : Nat) (bs : List BucketA) (i : Nat) (hi : i < bs.length) :
+    bodyOff vs bs i + bs[i].entries.size * (Generated.hashSize + vs) ≤ (bs.flatMap (bucketBody vs)).length ∧
+    slice (bs.flatMap (bucketBody vs)) (bodyOff vs bs i) (bs[i].entries.size * (Generated.hashSize + vs))
+      = bucketBody vs bs[i] := by
+  induction bs generalizing i with
+  | nil => simp at hi
+  | cons b r ih =>
+    rw [bodies_cons, List.length_append, bucketBody_length]
+    cases i with
+    | zero =>
+      simp only [bodyOff, List.getElem_cons_zero, Nat.zero_add]
+      refine ⟨by omega, ?_⟩
+      have := slice_zero_append (bucketBody vs b) (r.flatMap (bucketBody vs))
+      rwa [bucketBody_length] at this
+    | succ j =>
+      have hj : j < r.length := by simpa using hi
+      obtain ⟨h1, h2⟩ := ih j hj
+      simp only [bodyOff, List.getElem_cons_succ]
+      refine ⟨by omega, ?_⟩
+      rw [← bucketBody_length vs b, slice_append_right]
+      exact h2
+
+/-- entry `idx` of a bucket body -/
+theorem bucketBody_entry (vs : Nat) (b : BucketA) (idx : Nat) (hi : idx < b.entries.size) :
+    slice (bucketBody vs b) (idx * (Generated.hashSize + vs)) (Generated.hashSize + vs) = entryBytes vs b.entries[idx] := by
+  unfold bucketBody
+  rw [List.flatMap_def]
+  have hfix : ∀ x ∈ b.entries.toList.map (entryBytes vs), x.length = Generated.hashSize + vs := by
+    intro x hx
+    obtain ⟨e, _, rfl⟩ := List.mem_map.1 hx
+    exact entryBytes_length _ _
+  have hlen : idx < (b.entries.toList.map (entryBytes vs)).length := by simpa using hi
+  have := slice_flatten_fixed _ _ hfix idx hlen
+  rw [Nat.mul_comm] at this
+  rw [this]
+  simp
+
+/-- what `Lookup` decodes from one stored entry: the 24-bit hash and the value -/
+theorem entryBytes_decode (vs : Nat) (e : Ent) (hh : e.1 < 2^24) (hv : e.2.length = vs) :
+    unle ((entryBytes vs e).take 3) = e.1 ∧ ((entryBytes vs e).drop 3).take vs = e.2 := by
+  unfold entryBytes
+  rw [hashSize_eq, hv, Nat.sub_self, List.replicate_zero, List.append_nil]
+  have h3 : (le 3 e.1).length = 3 := le_length _ _
+  have t : (le 3 e.1 ++ e.2.take vs).take 3 = le 3 e.1 := by
+    have := take_length_append (le 3 e.1) (e.2.take vs); rwa [h3] at this
+  have d : (le 3 e.1 ++ e.2.take vs).drop 3 = e.2.take vs := by
+    have := drop_length_append (le 3 e.1) (e.2.take vs); rwa [h3] at this
+  rw [t, d]
+  refine ⟨unle_le_of_lt 3 _ (by rw [pow3]; exact hh), ?_⟩
+  rw [List.take_take, Nat.min_self, ← hv, List.take_length]
+
+/-! ### the limits of the format -/
+
+/-- everything the file format needs from an abstract index for `encode` to be loss-free -/
+structure EncOk (ix : IndexA) : Prop where
+  vs_pos : 0 < ix.valueSize
+  /-- the Go stride `HashSize + valueSize` is a `uint8` -/
+  vs_le : ix.valueSize ≤ 255 - Generated.hashSize
+  nb_pos : 0 < ix.numBuckets
+  /-- `Header.NumBuckets` is a `uint32` -/
+  nb_lt : ix.numBuckets < 2^32
+  len : ix.buckets.length = ix.numBuckets
+  /-- `indexmeta` limits: one length byte each -/
+  meta_n : ix.metaKVs.length ≤ 255
+  meta_kv : ∀ kv ∈ ix.metaKVs, kv.1.length ≤ 255 ∧ kv.2.length ≤ 255
+  /-- `BucketHeader.HashDomain` is a `uint32` -/
+  nonce : ∀ b ∈ ix.buckets, b.nonce < 2^32
+  /-- `BucketHeader.NumEntries` is a `uint32` -/
+  count : ∀ b ∈ ix.buckets, b.entries.size < 2^32
+  /-- stored hashes have `HashSize` bytes -/
+  hash : ∀ b ∈ ix.buckets, ∀ i (h : i < b.entries.size), b.entries[i].1 < 2^24
+  /-- `BucketHeader.FileOffset` is a `uint48` -/
+  size : (encode ix).length < 2^48
+
+/-- every stored value has exactly `valueSize` bytes (shorter ones would be zero-padded by `marshalEntry`) -/
+def ValsOk (ix : IndexA) : Prop :=
+  ∀ b ∈ ix.buckets, ∀ i (h : i < b.entries.size), b.entries[i].2.length = ix.valueSize
+
+theorem headerBytes_length (vs nb : Nat) (m : List (Bytes × Bytes)) :
+    (headerBytes vs nb m).length = 25 + (metaBytes m).length := by
+  simp only [headerBytes, magic, Generated.compactindexsizedMagic, List.length_append, le_length, List.length_cons,
+    List.length_nil]
+  omega
+
+/-- **`Open` succeeds on every file `Seal` writes and reads back the header fields that were written** -/
+theorem openB_encode (ix : IndexA) (ok : EncOk ix) :
+    openB (encode ix).toArray
+      = .ok ⟨ix.valueSize, ix.numBuckets, (headerBytes ix.valueSize ix.numBuckets ix.metaKVs).length, ix.metaKVs⟩ := by
+  obtain ⟨R, hR⟩ : ∃ R, R = le 8 ix.valueSize ++ le 4 ix.numBuckets ++ [UInt8.ofNat Generated.compactindexsizedVersion]
+      ++ metaBytes ix.metaKVs := ⟨_, rfl⟩
+  obtain ⟨Tl, hTl⟩ : ∃ Tl, Tl = tableFrom ix.valueSize ix.buckets
+      ((headerBytes ix.valueSize ix.numBuckets ix.metaKVs).length + Generated.bucketHdrLen * ix.numBuckets)
+      ++ ix.buckets.flatMap (bucketBody ix.valueSize) := ⟨_, rfl⟩
+  have hH : headerBytes ix.valueSize ix.numBuckets ix.metaKVs = (magic ++ le 4 R.length) ++ R := by
+    rw [headerBytes, ← hR]
+  have hF : encode ix = (magic ++ le 4 R.length) ++ (R ++ Tl) := by
+    rw [encode, hTl, ← List.append_assoc, ← List.append_assoc, hH]
+  have hRlen : R.length = 13 + (metaBytes ix.metaKVs).length := by
+    rw [hR]; simp only [List.length_append, le_length, List.length_cons, List.length_nil]
+  have hmb := metaBytes_length_le ix.metaKVs ok.meta_kv
+  have hmn := ok.meta_n
+  have hR32 : R.length < 256 ^ 4 := by rw [pow4]; omega
+  have hmag : magic.length = 8 := rfl
+  have h12 : (magic ++ le 4 R.length).length = 12 := by rw [List.length_append, le_length, hmag]
+  have hFlen : (encode ix).length = 12 + (R.length + Tl.length) := by
+    rw [hF, List.length_append, h12, List.length_append]
+  have r12 : rd (encode ix).toArray 0 12 = some (magic ++ le 4 R.length) := by
+    rw [rd_toArray, if_pos (by omega), hF]
+    have := slice_zero_append (magic ++ le 4 R.length) (R ++ Tl)
+    rw [h12] at this; rw [this]
+  have tk8 : (magic ++ le 4 R.length).take 8 = magic := by
+    have := take_length_append magic (le 4 R.length); rwa [hmag] at this
+  have dr8 : (magic ++ le 4 R.length).drop 8 = le 4 R.length := by
+    have := drop_length_append magic (le 4 R.length); rwa [hmag] at this
+  have hu : unle (le 4 R.length) = R.length := unle_le_of_lt 4 _ hR32
+  have rH : rd (encode ix).toArray 0 (12 + R.length) = some ((magic ++ le 4 R.length) ++ R) := by
+    rw [rd_toArray, if_pos (by omega), hF, ← List.append_assoc]
+    have := slice_zero_append ((magic ++ le 4 R.length) ++ R) Tl
+    rw [List.length_append, h12] at this; rw [this]
+  have hbuflen : ((magic ++ le 4 R.length) ++ R).length = 12 + R.length := by rw [List.length_append, h12]
+  -- the fields of the header
+  have hRa : R = le 8 ix.valueSize ++ (le 4 ix.numBuckets ++ ([UInt8.ofNat Generated.compactindexsizedVersion]
+      ++ metaBytes ix.metaKVs)) := by rw [hR, List.append_assoc, List.append_assoc]
+  have fvs : slice ((magic ++ le 4 R.length) ++ R) 12 8 = le 8 ix.valueSize := by
+    have := slice_append_right (magic ++ le 4 R.length) R 0 8
+    rw [h12] at this
+    rw [this, hRa]
+    have := slice_zero_append (le 8 ix.valueSize) (le 4 ix.numBuckets ++ ([UInt8.ofNat Generated.compactindexsizedVersion]
+      ++ metaBytes ix.metaKVs))
+    rwa [le_length] at this
+  have fnb : slice ((magic ++ le 4 R.length) ++ R) 20 4 = le 4 ix.numBuckets := by
+    have := slice_append_right (magic ++ le 4 R.length) R 8 4
+    rw [h12] at this
+    rw [this, hRa]
+    have h1 := slice_append_right (le 8 ix.valueSize) (le 4 ix.numBuckets ++ ([UInt8.ofNat Generated.compactindexsizedVersion]
+      ++ metaBytes ix.metaKVs)) 0 4
+    rw [le_length] at h1
+    rw [h1]
+    have := slice_zero_append (le 4 ix.numBuckets) ([UInt8.ofNat Generated.compactindexsizedVersion] ++ metaBytes ix.metaKVs)
+    rwa [le_length] at this
+  have hdrop : ((magic ++ le 4 R.length) ++ R).drop 24
+      = UInt8.ofNat Generated.compactindexsizedVersion :: metaBytes ix.metaKVs := by
+    have e : (24:Nat) = (magic ++ le 4 R.length).length + ((le 8 ix.valueSize).length + (le 4 ix.numBuckets).length) := by
+      rw [h12, le_length, le_length]
+    rw [e, ← List.drop_drop, drop_length_append, hRa, ← List.drop_drop, drop_length_append, drop_length_append]
+    rfl
+  have fver : ((magic ++ le 4 R.length) ++ R).getD 24 0 = UInt8.ofNat Generated.compactindexsizedVersion := by
+    rw [List.getD, ← List.head?_drop, hdrop]; rfl
+  have fmeta : ((magic ++ le 4 R.length) ++ R).drop 25 = metaBytes ix.metaKVs := by
+    have : (25:Nat) = 24 + 1 := rfl
+    rw [this, ← List.drop_drop, hdrop]; rfl
+  have uvs : unle (le 8 ix.valueSize) = ix.valueSize := unle_le_of_lt 8 _ (by
+    rw [pow8]; have := ok.vs_le; rw [hashSize_eq] at this; omega)
+  have unb : unle (le 4 ix.numBuckets) = ix.numBuckets := unle_le_of_lt 4 _ (by rw [pow4]; exact ok.nb_lt)
+  unfold openB
+  simp only [r12, tk8, dr8, hu, rH, hbuflen, fvs, fnb, fver, fmeta, uvs, unb,
+    parseMeta_enc ix.metaKVs ok.meta_n ok.meta_kv, ne_eq, not_true_eq_false, if_false]
+  rw [if_neg (by omega), if_neg (by omega), if_neg (by omega), if_neg (by have := ok.vs_pos; omega),
+    if_neg (by have := ok.nb_pos; omega), hH, hbuflen]
+
+/-! ### search over bytes = search over the abstract array -/
+
+theorem searchB_eq (a : Array Ent) (get : Nat → Option Ent) (x : Nat)
+    (hget : ∀ i (h : i < a.size), get i = some a[i]) (fuel idx : Nat) :
+    searchB get x a.size fuel idx
+      = match Eytz.search a x fuel idx with
+        | some v => Look.found v
+        | none => Look.notFound := by
+  induction fuel generalizing idx with
+  | zero => simp [searchB, Eytz.search]
+  | succ f ih =>
+    rw [searchB, Eytz.search]
+    by_cases hi : idx < a.size
+    · have hg : a.getD idx default = a[idx] := by simp [Array.getD, hi]
+      rw [if_pos hi, if_pos hi, hget idx hi]
+      simp only [hg]
+      by_cases he : a[idx].1 = x
+      · rw [if_pos he, if_pos he]
+      · rw [if_neg he, if_neg he]; exact ih _
+    · rw [if_neg hi, if_neg hi]
+
 end CI
